@@ -599,6 +599,9 @@ pub fn reidle_delay() -> Duration {
         let mut sc = Scenario::new("calibration", 0xca11b);
         sc.epilogue = false;
         sc.callers = vec![(Duration::from_millis(20), vec![Step::Do(Req::Raw { shape: 0 })])];
+        // a second caller that only waits (virtual time) keeps the session open long enough to see the re-idle of
+        // a library whose delay is anything up to 10 minutes
+        sc.callers.push((Duration::from_millis(20), vec![Step::Think(Duration::from_secs(600))]));
         // `run_session` calls `reidle_delay` through `session_main`; break the recursion with a provisional value
         CALIBRATING.with(|c| c.set(true));
         let out = run_session(&sc);
